@@ -103,9 +103,24 @@ func emitDocQ(out *Out, g *DocGen, root *ANode, p *Presentation, hs HSpec, maxQ 
 	impl, run, dsJ, canon, why := docImpl(doc, hs, loader, true, queries)
 	nMember, nNon := 0, 0
 	if run.Err == nil {
+		// membership is decided where the tree decides it: on the key hash (with the small-prime test hashers two different
+		// paths can share a hash; such a path *is* a key of the tree)
 		member := map[string]bool{}
 		for _, e := range run.Entries {
-			member[fmt.Sprintf("%#v", e.VerifKeyParts())] = true
+			if kh, err := e.KeyMtEntry(); err == nil {
+				member[kh.String()] = true
+			}
+		}
+		keyOf := func(parts []interface{}) string {
+			p, err := run.Mz.Options().NewPath(parts...)
+			if err != nil {
+				return "?"
+			}
+			kh, err := p.MtEntry()
+			if err != nil {
+				return "?"
+			}
+			return kh.String()
 		}
 		if okv, ok := impl["ok"].(J); ok {
 			if qr, ok := okv["q"].([]any); ok {
@@ -119,7 +134,7 @@ func emitDocQ(out *Out, g *DocGen, root *ANode, p *Presentation, hs HSpec, maxQ 
 						continue
 					}
 					ex, _ := xj["ex"].(bool)
-					want := member[fmt.Sprintf("%#v", queries[i])]
+					want := member[keyOf(queries[i])]
 					if want {
 						nMember++
 					} else {
